@@ -132,13 +132,19 @@ impl Drop for SubSocket {
 
 impl SubSocket {
     pub async fn subscribe(&mut self, subscription: &str) -> ZmqResult<()> {
-        self.backend.subs.lock().insert(subscription.to_string());
+        // Publishers count subscriptions per topic, while `subs` (what a late joiner is told) is a
+        // set: only a change of the set is sent, so that all peers agree.
+        if !self.backend.subs.lock().insert(subscription.to_string()) {
+            return Ok(());
+        }
         self.process_subs(subscription, SubBackendMsgType::SUBSCRIBE)
             .await
     }
 
     pub async fn unsubscribe(&mut self, subscription: &str) -> ZmqResult<()> {
-        self.backend.subs.lock().remove(subscription);
+        if !self.backend.subs.lock().remove(subscription) {
+            return Ok(());
+        }
         self.process_subs(subscription, SubBackendMsgType::UNSUBSCRIBE)
             .await
     }
